@@ -454,7 +454,8 @@ Record errinfo := mkErr { ekind_of : ekind; eline : nat; ecol : Z; esrcline : by
 
 Inductive signal := SigBreak | SigContinue | SigReturn | SigNext | SigExit.
 
-Inductive io_event := IoWrite (b : bytes) | IoRead (n : nat) | IoReadEOF | IoReadFail.
+(* IoRaise is a ghost event: it marks the point where an error was raised (C11) *)
+Inductive io_event := IoWrite (b : bytes) | IoRead (n : nat) | IoReadEOF | IoReadFail | IoRaise.
 
 Record st := mkSt {
   hp : heap;
@@ -487,6 +488,7 @@ Definition bind {A B} (m : M A) (k : A -> M B) : M B :=
            | (Unsupp, s') => (Unsupp, s')
            end.
 Definition fail {A} (r : res A) : M A := fun s => (r, s).
+(* every error of the run is raised here *)
 
 Definition with_heap {A} (f : heap -> A * heap) : M A := fun s =>
   let '(a, h') := f (hp s) in
@@ -511,6 +513,9 @@ Definition emit (b : bytes) : M unit := fun s =>
   (Ok tt, mkSt (hp s) (frames s) (rule_root s) (root s) (retval s) (IoWrite b :: io s)).
 Definition log_io (evs : list io_event) : M unit := fun s =>
   (Ok tt, mkSt (hp s) (frames s) (rule_root s) (root s) (retval s) (rev evs ++ io s)).
+
+Definition raise_err {A} (e : errinfo) : M A := fun s =>
+  (Err e, mkSt (hp s) (frames s) (rule_root s) (root s) (retval s) (IoRaise :: io s)).
 
 (* all bytes written so far *)
 Definition output_of (l : list io_event) : bytes :=
